@@ -88,7 +88,10 @@ StatsOK(r) ==
     /\ 0 < r.counts[i] /\ r.counts[i] < r.n
 
 Check(r) ==
-  IF r.layer = "stats"
+  IF r.layer = "xthread"
+  THEN (IF r.total = r.distinct THEN [step |-> 0, why |-> ""]
+        ELSE [step |-> 1, why |-> "C10 the same nonce was drawn on two threads"])
+  ELSE IF r.layer = "stats"
   THEN (IF StatsOK(r) THEN [step |-> 0, why |-> ""] ELSE [step |-> 1, why |-> "C10 nonce bit frequency outside the bound"])
   ELSE Walk(BInit(r.layer), r.ops, 1)
 
